@@ -167,7 +167,7 @@ pub fn mutations(prog: &[u8], wit: &[u8]) -> Vec<(Vec<u8>, Vec<u8>, String)> {
 fn leg_population(ctx: &Ctx, out: &mut Out) {
     let leg = "population";
     let fam = Fam::Elements;
-    let nmax = ctx.tier.pick(5, 5);
+    let nmax = ctx.tier.pick(5, 6);
     for n in 1..=nmax {
         let alpha = sigma_p(fam);
         let mut dags: Vec<Dag> = vec![];
